@@ -25,3 +25,9 @@ pub mod systematic;
 
 mod linalg;
 mod util;
+
+/// Verification hooks: re-exports of private items for external checkers.
+#[cfg(feature = "verif-hooks")]
+pub mod verif_hooks {
+    pub use crate::linalg::{Error as LinalgError, gauss_reduction, row_echelon_form};
+}
